@@ -487,6 +487,7 @@ class C06(PoolMixin, SystematicMixin, LegacyMixin, E2ECheck):
     quick_examples = 32000
     thorough_examples = 350000
     profile = {
+        'long_names': True,
         'cancel_points': True,
         'types': ['download'], 'dsts': ['path'], 'ntransfers': (1, 2),
         'subs': {'max': 1, 'size': True}, 'stream_scripts': True,
